@@ -17,25 +17,25 @@ import (
 )
 
 type fact struct {
-	lenOf string // len(lenOf) >= min
-	min   int
-	idx   string // idx < len(idxOf)  (idxOf may be "X#NumFields" for accessor counts)
-	idxOf string
-	tyExpr string // dynamic type of tyExpr is in tySet
-	tySet  []string
-	nonNil string // expression known non-nil
-	holds  string // a condition (rendered) known to be true here
-	alias  string // alias = aliasOf (type-switch binder or single-definition local)
+	lenOf   string // len(lenOf) >= min
+	min     int
+	idx     string // idx < len(idxOf)  (idxOf may be "X#NumFields" for accessor counts)
+	idxOf   string
+	tyExpr  string // dynamic type of tyExpr is in tySet
+	tySet   []string
+	nonNil  string // expression known non-nil
+	holds   string // a condition (rendered) known to be true here
+	alias   string // alias = aliasOf (type-switch binder or single-definition local)
 	aliasOf string
 }
 
 type oblCtx struct {
-	w     *World
-	pkg   *packages.Package
-	fn    *ast.FuncDecl
-	fname string
-	facts []fact
-	out   *[]Ob
+	w       *World
+	pkg     *packages.Package
+	fn      *ast.FuncDecl
+	fname   string
+	facts   []fact
+	out     *[]Ob
 	commaOk map[ast.Node]bool
 	okBind  map[types.Object]*ast.AssignStmt
 }
